@@ -1,6 +1,8 @@
 package client
 
 import (
+	"bytes"
+	"errors"
 	"fmt"
 
 	"github.com/jcmturner/gokrb5/v8/kadmin"
@@ -37,6 +39,10 @@ func (cl *Client) ChangePasswd(newPasswd string) (bool, error) {
 	r, err := cl.sendToKPasswd(msg)
 	if err != nil {
 		return false, err
+	}
+	if !r.IsKRBError && bytes.Equal(r.KRBPriv.EncPart.Cipher, msg.KRBPriv.EncPart.Cipher) {
+		// The request's own KRB-PRIV sent back: it would decrypt with the subkey and the new password would be read as the result string
+		return false, errors.New("kpasswd reply is a reflection of the request")
 	}
 	err = r.Decrypt(key)
 	if err != nil {
